@@ -37,6 +37,7 @@ def run(ctx):
     ctx.run(T.tbl17_constant_translation_is_inverse)
     ctx.run(OP.pan8_range_arithmetic)
     ctx.run(R.cnd3_block_condition_implies_flush_condition)
+    ctx.run(L.lck11_worker_never_waits_for_its_own_pool)
     return ctx.finish(
         'Static analysis of compiler MIR: deadlock-freedom clauses (acyclic lock-order graph over '
         'all lock identities, no guard across blocking calls except tabled sites, paired condvar '
